@@ -10,6 +10,8 @@ require (
 	github.com/axiomhq/hyperloglog v0.0.0-20191112132149-a4c4c47bc57f
 	github.com/blugelabs/bluge v0.0.0
 	github.com/blugelabs/bluge_segment_api v0.2.0
+	github.com/blugelabs/ice v1.0.0
+	github.com/blugelabs/ice/v2 v2.0.1
 	golang.org/x/text v0.3.0
 	pgregory.net/rapid v1.3.0
 )
@@ -21,8 +23,6 @@ require (
 	github.com/blevesearch/segment v0.9.0 // indirect
 	github.com/blevesearch/snowballstem v0.9.0 // indirect
 	github.com/blevesearch/vellum v1.0.7 // indirect
-	github.com/blugelabs/ice v1.0.0 // indirect
-	github.com/blugelabs/ice/v2 v2.0.1 // indirect
 	github.com/caio/go-tdigest v3.1.0+incompatible // indirect
 	github.com/dgryski/go-metro v0.0.0-20180109044635-280f6062b5bc // indirect
 	github.com/golang/snappy v0.0.1 // indirect
